@@ -19,7 +19,14 @@ const KEYWORDS: [&str; 30] = [
 /// standard constants appended to every program so that replacements can refer to them
 const EXTRA_CONSTS: &str = "    let SA = [1, 2, 3]\n    let SS = \"txt\"\n    let SB = true\n    let SN = [[1, 2], [3]]\n    let SG = Graph {\n        P -> [Q: 2],\n        Q\n    }\n    let SF = 2.5\n    let SK = 1\n";
 
-const REPLACEMENTS: [(&str, &str); 43] = [
+const REPLACEMENTS: [(&str, &str); 49] = [
+    // blocks: values of the model, not of the compile-time data
+    ("max { 2, 3 }", "block-of-constants"),
+    ("abs { 2 }", "abs-block-of-constant"),
+    ("sum(jj in 0..2) { 7 }", "scoped-block-of-constants"),
+    ("min { len(SA), 3 }", "block-over-len"),
+    ("avg { 1, 2 }", "avg-block"),
+    ("all { true, SB }", "logic-block-of-constants"),
     ("\"str\"", "string"),
     ("SS", "string"),
     ("true", "boolean"),
